@@ -69,7 +69,11 @@ def build_kind(spec, kind, nested_cls=None):  # noqa: C901
     if kind == "dataclass":
         lines += ["@dataclasses.dataclass", f"class {name}:"]
         for f in fields:
-            lines.append(f"    {f['n']}: {ann(f)}" + (f" = {f['d'][0]!r}" if f["d"] else ""))
+            if f.get("kw"):   # keyword-only field declared in the middle: field order != constructor parameter order
+                opts = ["kw_only=True"] + ([f"default={f['d'][0]!r}"] if f["d"] else [])
+                lines.append(f"    {f['n']}: {ann(f)} = dataclasses.field({', '.join(opts)})")
+            else:
+                lines.append(f"    {f['n']}: {ann(f)}" + (f" = {f['d'][0]!r}" if f["d"] else ""))
     elif kind == "namedtuple":
         lines += [f"class {name}(typing.NamedTuple):"]
         for f in fields:
@@ -83,7 +87,11 @@ def build_kind(spec, kind, nested_cls=None):  # noqa: C901
         ns["attrs"] = attrs
         lines += ["@attrs.define", f"class {name}:"]
         for f in fields:
-            lines.append(f"    {f['n']}: {ann(f)}" + (f" = {f['d'][0]!r}" if f["d"] else ""))
+            if f.get("kw"):
+                opts = ["kw_only=True"] + ([f"default={f['d'][0]!r}"] if f["d"] else [])
+                lines.append(f"    {f['n']}: {ann(f)} = attrs.field({', '.join(opts)})")
+            else:
+                lines.append(f"    {f['n']}: {ann(f)}" + (f" = {f['d'][0]!r}" if f["d"] else ""))
     elif kind == "pydantic":
         import pydantic  # noqa: PLC0415
         ns["pydantic"] = pydantic
@@ -120,6 +128,11 @@ def fieldwise(obj, kind, spec, nested_kind_spec=None):
     for f in spec["fields"]:
         v = get_field(obj, kind, f["n"])
         if f["t"] == "nested" and v not in (None, "<absent>"):
+            looks_like_model = isinstance(v, dict) if kind == "typeddict" else \
+                all(hasattr(v, g["n"]) for g in spec["nested"]["fields"])
+            if not looks_like_model:     # a wrong object in the nested position is a difference, not a harness error
+                out.append((f["n"], ("not_a_model", tspec.canon(v))))
+                continue
             v = fieldwise(v, kind, spec["nested"])
             out.append((f["n"], ("nested", v)))
         else:
@@ -153,7 +166,13 @@ def st_fields(draw, n_min=1, n_max=4, allow_nested=False):
         fields.append({"n": nm, "t": t, "d": d})
     req = [f for f in fields if not f["d"]]
     opt = [f for f in fields if f["d"]]
-    return req + opt
+    fields = req + opt
+    # some required fields become keyword-only in the kinds that know the notion (dataclass, attrs); placed before the
+    # positional ones they make the declaration order differ from the constructor's parameter order
+    for f in fields[1:]:
+        if draw(st.integers(0, 4)) == 0 and not f["d"]:
+            f["kw"] = True
+    return fields
 
 
 @st.composite
